@@ -18,7 +18,6 @@ import (
 	utilsv2 "github.com/onosproject/onos-config/pkg/utils/v2/values"
 	"github.com/openconfig/gnmi/proto/gnmi_ext"
 	"google.golang.org/grpc/codes"
-	"google.golang.org/grpc/status"
 
 	"github.com/onosproject/onos-config/pkg/pluginregistry"
 
@@ -743,7 +742,8 @@ func (r *Reconciler) reconcileApply(ctx context.Context, proposal *configapi.Pro
 		log.Debugf("Sending SetRequest %+v", setRequest)
 		setResponse, err := conn.Set(ctx, setRequest)
 		if err != nil {
-			code := status.Code(err)
+			// The southbound client converts gRPC errors to typed errors: recover the status code from the type
+			code := errors.Status(err).Code()
 			switch code {
 			case codes.Unavailable, codes.Canceled, codes.DeadlineExceeded:
 				log.Errorf("Failed sending SetRequest %+v", setRequest, err)
